@@ -126,9 +126,12 @@ type Param struct {
 	Soft  bool    `json:"soft,omitempty"`
 	Obj   []Param `json:"obj,omitempty"`
 	IsObj bool    `json:"isobj,omitempty"` // object with possibly zero fields
-	Tag   string  `json:"tag,omitempty"`   // raw struct tag override (bad-input grammar)
-	Host  string  `json:"host,omitempty"`  // hostile type name (bad-input grammar)
-	Unexp bool    `json:"unexp,omitempty"` // (bad-input grammar) not representable: ignored
+	// Decl: the object is a declared struct type (ignore-unexported:"true"
+	// with unexported fields in between); Obj lists its exported fields.
+	Decl  string `json:"decl,omitempty"`
+	Tag   string `json:"tag,omitempty"`   // raw struct tag override (bad-input grammar)
+	Host  string `json:"host,omitempty"`  // hostile type name (bad-input grammar)
+	Unexp bool   `json:"unexp,omitempty"` // (bad-input grammar) not representable: ignored
 }
 
 type Result struct {
@@ -348,6 +351,9 @@ func (p Param) Short() string {
 		var fs []string
 		for _, q := range p.Obj {
 			fs = append(fs, q.Short())
+		}
+		if p.Decl != "" {
+			return p.Decl + "{" + strings.Join(fs, ";") + "}"
 		}
 		return "In{" + strings.Join(fs, ";") + "}"
 	}
